@@ -308,7 +308,7 @@ func jLoop(t *testing.T, r *fw.Run, phase string, n int, g jGen, nRandom, nNth i
 func TestC03(t *testing.T) {
 	r := fw.Start(t, "C03")
 	defer r.Finish()
-	g := jGen{Cancels: true, MidShutdown: true, Replayers: []string{"rec", "rec", "finite:4:auto", "valid:manual", "none"}, MaxSubs: 5, MaxPubs: 4, MaxMsgs: 6, Latency: true, LateSubscribe: true}
+	g := jGen{Cancels: true, ClientFaults: true, MidShutdown: true, Replayers: []string{"rec", "rec", "finite:4:auto", "valid:manual", "none"}, MaxSubs: 5, MaxPubs: 4, MaxMsgs: 6, Latency: true, LateSubscribe: true}
 	jLoop(t, r, "S", r.N(4000, 60000), g, 4, 5, jTargeted, func(sc *jScenario, tr *jTrace) []jv {
 		out := oracleDelivery(sc, tr, false)
 		out = append(out, oracleFlush(tr)...)
@@ -333,7 +333,7 @@ func TestC04(t *testing.T) {
 func TestC06(t *testing.T) {
 	r := fw.Start(t, "C06")
 	defer r.Finish()
-	g := jGen{ClientFaults: true, Cancels: true, CancelOnFail: true, ReplayerFaults: true, MidShutdown: true, Replayers: []string{"rec", "finite:3:manual", "none"}, MaxSubs: 4, MaxPubs: 3, MaxMsgs: 5, Latency: true, LateSubscribe: true}
+	g := jGen{ClientFaults: true, Cancels: true, CancelOnFail: true, ReplayerFaults: true, MidShutdown: true, Resume: true, Replayers: []string{"rec", "rec", "finite:3:manual", "finite:4:auto", "valid:manual", "valid:auto", "none"}, MaxSubs: 4, MaxPubs: 3, MaxMsgs: 5, Latency: true, LateSubscribe: true}
 	jLoop(t, r, "S", r.N(4000, 60000), g, 4, 6, jTargeted, func(sc *jScenario, tr *jTrace) []jv {
 		return oracleSubscriberSafety(sc, tr)
 	})
@@ -400,7 +400,7 @@ func TestC07(t *testing.T) {
 func TestC17(t *testing.T) {
 	r := fw.Start(t, "C17")
 	defer r.Finish()
-	g := jGen{ClientFaults: true, ReplayerFaults: true, PanicFaults: true, Replayers: []string{"rec", "rec", "finite:4:manual", "finite:3:auto"}, MaxSubs: 5, MaxPubs: 3, MaxMsgs: 5, Latency: true, LateSubscribe: true}
+	g := jGen{ClientFaults: true, ReplayerFaults: true, PanicFaults: true, Resume: true, Replayers: []string{"rec", "rec", "finite:4:manual", "finite:3:auto", "valid:manual", "valid:auto"}, MaxSubs: 5, MaxPubs: 3, MaxMsgs: 5, Latency: true, LateSubscribe: true}
 	jLoop(t, r, "S", r.N(4000, 60000), g, 3, 4, []map[string]int64{{"loop.errsent": 60}, {"loop.sent": 35, "loop.put": 20}, {"loop.replayed": 100}}, func(sc *jScenario, tr *jTrace) []jv {
 		out := oracleDelivery(sc, tr, false)
 		out = append(out, oraclePublishReturns(tr)...)
